@@ -330,9 +330,9 @@ func runScenario(sc scenario) result {
 	select {
 	case <-closersDone:
 		res.ClosersDone = true
-	case <-time.After(4 * time.Second):
+	case <-time.After(3 * time.Second):
 		// a close call hangs (teardown stuck): anything else we did with this connection would hang too
-		res.Note = "closing goroutines did not return within 4s"
+		res.Note = "closing goroutines did not return within 3s"
 		collect()
 		return res
 	}
